@@ -270,11 +270,14 @@ impl TlsDemux {
             match parsed_alpn
                 .iter()
                 .filter(|x| matches!(x, Protocol::Http1 | Protocol::Http3))
+                .filter(|x| self.tunnel_protocols.contains(x))
                 .max()
                 .cloned()
             {
                 Some(x) => (x, Channel::ReverseProxy, h, None),
-                None if alpn.clone().peekable().peek().is_none() => {
+                None if self.tunnel_protocols.contains(&DEFAULT_PROTOCOL)
+                    && alpn.clone().peekable().peek().is_none() =>
+                {
                     (DEFAULT_PROTOCOL, Channel::ReverseProxy, h, None)
                 }
                 None => {
@@ -285,23 +288,16 @@ impl TlsDemux {
                 }
             }
         } else if let Some(h) = self.ping_hosts.get(&sni) {
+            // only a protocol the listener has a codec for can serve the connection
             (
-                parsed_alpn
-                    .iter()
-                    .max()
-                    .cloned()
-                    .unwrap_or(DEFAULT_PROTOCOL),
+                self.select_tunnel_channel_protocol(parsed_alpn.iter(), alpn)?,
                 Channel::Ping,
                 h,
                 None,
             )
         } else if let Some(h) = self.speedtest_hosts.get(&sni) {
             (
-                parsed_alpn
-                    .iter()
-                    .max()
-                    .cloned()
-                    .unwrap_or(DEFAULT_PROTOCOL),
+                self.select_tunnel_channel_protocol(parsed_alpn.iter(), alpn)?,
                 Channel::Speedtest,
                 h,
                 None,
